@@ -50,6 +50,9 @@ type vLink struct {
 	// budget starts (moves the fault window into the run: retransmissions,
 	// acknowledgements of later packets, pings)
 	skip int
+	// stalled: the send function blocks (a stream write under flow control
+	// that nobody drains) until the context it was given is cancelled
+	stalled bool
 	// ghost log of everything put on the wire (for monitors)
 	wire [][]byte
 }
@@ -76,6 +79,13 @@ func (l *vLink) send(ctx context.Context, b []byte) error {
 			return ctx.Err()
 		default:
 		}
+	}
+	l.mu.Lock()
+	stalled := l.stalled
+	l.mu.Unlock()
+	if stalled {
+		<-ctx.Done()
+		return ctx.Err()
 	}
 	if l.slowData > 0 && len(b) >= 4 && b[0] == DATA && b[3] == FALSE {
 		// a write that cannot be interrupted once it has started
